@@ -151,3 +151,37 @@ func VerifC19_Conc_TwoQueued_FIFO() { verifC19TwoQueued(OrderingFIFO) }
 
 //verif:harness property=C19 theory=bv tier=quick timers=off unwind=3 unwindcut=1 clock=frozen maxpaths=60000
 func VerifC19_Conc_TwoQueued_LIFO() { verifC19TwoQueued(OrderingLIFO) }
+
+// VerifC19_Conc_TwoQueuedTwoReleases: a FIFO / LIFO pool of limit 2, both tokens held since setup, two
+// callers queued in a fixed arrival order, then BOTH holders complete concurrently (two completions
+// overlapping inside the queue limiter's unblock): every release hands its token to a queued caller
+// - at quiescence nobody is parked while the pool has a free token.
+//
+//verif:harness property=C19 theory=bv tier=quick timers=off unwind=3 unwindcut=1 clock=frozen maxpaths=60000
+func VerifC19_Conc_TwoQueuedTwoReleases() {
+	ord := []Ordering{OrderingFIFO, OrderingLIFO}[verif.Choice("ordering", 2)]
+	p, err := NewFixedPool("p", ord, 2, 100, time.Second, time.Second, time.Millisecond, 10, time.Hour, nil, nil)
+	verif.Assert("pool-constructed", err == nil)
+	_, _, _, _, delegate := limiter.VerifDescribe(p.limiter)
+	st, _ := limiter.VerifDefaultParts(delegate.(*limiter.DefaultLimiter))
+	ps := st.(*strategy.PreciseStrategy)
+	h1, ok1 := p.Acquire(context.Background())
+	h2, ok2 := p.Acquire(context.Background())
+	verif.Assert("setup-holds-both-tokens", ok1 && ok2 && ps.GetBusyCount() == 2)
+	var g0, g1 bool
+	verif.SpawnAfter("w0", func() {
+		l, g := p.Acquire(context.Background())
+		g0 = g && l != nil
+	})
+	verif.SpawnAfter("w1", func() {
+		l, g := p.Acquire(context.Background())
+		g1 = g && l != nil
+	}, "w0")
+	verif.SpawnAfter("r1", func() { h1.OnIgnore() }, "w0", "w1")
+	verif.SpawnAfter("r2", func() { h2.OnIgnore() }, "w0", "w1")
+	verif.Parallel()
+	nBlocked := verif.B2I(verif.Blocked("w0")) + verif.B2I(verif.Blocked("w1"))
+	verif.Assert("two-releases-nobody-parked-with-a-free-token", verif.Not(verif.And(nBlocked > 0, ps.GetBusyCount() < 2)))
+	verif.Assert("two-releases-pool-holds-the-tokens-owned", ps.GetBusyCount() == verif.B2I(g0)+verif.B2I(g1))
+	verif.Reach("end")
+}
